@@ -359,7 +359,7 @@ end
 /-! ## headline: the executable spec holds of the model's trace, for every input -/
 theorem holds_model (i : Input) : holds i (model i) = true := by
   simp only [holds, clauses, List.all_cons, List.all_nil, Bool.and_true, Bool.and_eq_true]
-  refine ⟨?_, ?_, ?_, ?_, ?_, ?_, ?_, ?_⟩
+  refine ⟨?_, ?_, ?_, ?_, ?_, ?_, ?_, ?_, ?_⟩
   · simp [cIter, model]
   · simp [cFilterIds, model, iterate_filter]
   · simp [cFilterShape, model, rel_filter]
@@ -394,6 +394,17 @@ theorem holds_model (i : Input) : holds i (model i) = true := by
       exact ascending_perm (C19_sorted_perm _ _ h)
   · simp [cList, model]
   · simp [cLoad, model, iterate_filter]
+  · simp only [cSortThenFilter, model]
+    cases sortedTests i.tree with
+    | none => rfl
+    | some r => simp [iterate_filter]
+
+/-- C19 (sort, then filter — what `testtools.run discover --load-list` does): filtering the suite `sorted_tests` returned keeps
+exactly the chosen ids, in the sorted order; in particular every suite in that result - a suite whose own `sort_tests` ran
+included - can still be filtered. -/
+theorem C19_sorted_then_filter (i : Input) (r : T) (h : sortedTests i.tree = some r) :
+    (model i).sortFilt = some ((iterate r).filter fun x => i.ids.contains x) := by
+  simp [model, h, iterate_filter]
 
 /-- C19 (`--list`): exactly the ids `iterate_tests` yields. -/
 theorem C19_list (i : Input) : (model i).listed = iterate i.tree := rfl
